@@ -44,6 +44,7 @@ HEADERS = """
 #include <unifex/filter_stream.hpp>
 #include <unifex/for_each.hpp>
 #include <unifex/reduce_stream.hpp>
+#include <unifex/stop_immediately.hpp>
 #include <unifex/take_until.hpp>
 #include <unifex/transform_stream.hpp>
 #include <unifex/type_erased_stream.hpp>
@@ -56,7 +57,7 @@ UNARY = [("then", 5), ("upon_error", 2), ("upon_done", 2), ("let_value", 5), ("l
          ("let_done", 3), ("finally", 4), ("via", 3), ("on", 3), ("with_query", 2),
          ("unstoppable", 2), ("demat", 2), ("allocate", 1), ("lvw_stop_source", 3),
          ("lvw_stop_token", 2), ("let_value_with", 1), ("defer", 1), ("retry_when", 2), ("any_sender", 2)]
-NARY = [("sequence", 4), ("when_all", 6), ("stop_when", 5), ("when_any", 4)]
+NARY = [("sequence", 4), ("when_all", 6), ("stop_when", 5), ("when_any", 2)]
 VAL_ONLY = [("materialize_c", 2), ("dao_c", 2), ("into_variant_c", 1)]
 VOID_ONLY = [("repeat_effect_until", 2)]
 
@@ -87,6 +88,7 @@ class Gen:
         self.n_sched = 0
         self.n_fn = 0
         self.n_val = 0
+        self.n_any = 0
         self.lv_ok = True
         self.in_loop = 0
 
@@ -124,7 +126,10 @@ class Gen:
         blocking = "inline" if r < 0.12 else "maybe"
         sd = 0 if self.rng.random() < 0.15 else 1
         aff = 1 if self.rng.random() < 0.15 else 0
-        return {"op": "leaf", "id": self.leaf_id(), "vt": vt, "blocking": blocking, "sd": sd, "aff": aff}
+        d = {"op": "leaf", "id": self.leaf_id(), "vt": vt, "blocking": blocking, "sd": sd, "aff": aff}
+        if vt == "val" and self.rng.random() < 0.25:
+            d["mv"] = 1   # value type whose move constructor is a throw point (vf::mval)
+        return d
 
     def with_errors(self, spec, vt):
         """some adaptors do not compile over sources that declare no error types"""
@@ -222,8 +227,17 @@ class Gen:
             w = {"op": "when_all", "kids": kids}
             return {"op": "then", "kid": w, "fn": self.fn_id(), "ret": vt}
         if k == "when_any":
+            # when_any is a deep composition (just | let_value | let_value_with | when_all | let_done | let_value);
+            # to keep generated TUs compilable in reasonable time its children are terminals and a program
+            # contains at most one when_any
+            if self.n_any >= 1:
+                return self.leaf(vt)
+            self.n_any += 1
             n = self.rng.choice([2, 2, 3])
-            return {"op": "when_any", "kids": [E(vt, d) for _ in range(n)]}
+            kids = [E(vt, 0) for _ in range(n)]
+            for k2 in kids:
+                k2.pop("mv", None)   # when_any needs the first sender's value tuple constructible from every other's
+            return {"op": "when_any", "kids": kids}
         if k == "stop_when":
             # debug builds wrap receivers in try/catch->set_error(exception_ptr), which
             # stop_when's result variant cannot hold when the source declares no errors
@@ -266,10 +280,11 @@ def cpp(s):
     op = s["op"]
     U = "unifex::"
     if op == "leaf":
-        vt = "vf::val" if s["vt"] == "val" else "void"
+        vt = ("vf::mval" if s.get("mv") else "vf::val") if s["vt"] == "val" else "void"
         b = "always_inline" if s.get("blocking") == "inline" else "maybe"
-        return "vf::leaf<%s, unifex::_block::_enum::%s, %s, %s, false>{%d}" % (
-            vt, b, "true" if s.get("sd", 1) else "false", "true" if s.get("aff") else "false", s["id"])
+        return "vf::leaf<%s, unifex::_block::_enum::%s, %s, %s, false%s>{%d}" % (
+            vt, b, "true" if s.get("sd", 1) else "false", "true" if s.get("aff") else "false",
+            ", true" if s.get("lvv") else "", s["id"])
     if op == "just":
         return U + "just(%s)" % ", ".join("vf::val{%d}" % i for i in s["vals"])
     if op == "just_error":
@@ -345,6 +360,8 @@ def cpp_stream(s):
         return U + "via_stream(vf::msched{%d}, %s)" % (s["sched"], cpp_stream(s["src"]))
     if k == "type_erase":
         return U + "type_erase<vf::val>(%s)" % cpp_stream(s["src"])
+    if k == "stop_immediately":
+        return U + "stop_immediately<vf::val>(%s)" % cpp_stream(s["src"])
     if k == "take_until":
         return U + "take_until(%s, %s)" % (cpp_stream(s["src"]), cpp_stream(s["trig"]))
     raise AssertionError(k)
@@ -411,7 +428,30 @@ def generate(seed, n, max_depth=3, max_leaves=5, ops=None):
         r = rng.random()
         tok = 0 if r < 0.5 else (1 if r < 0.85 else 2)
         out.append((i + 1, spec, tok, False))
+    if ops is None:
+        out.extend(corner_programs(seed))
     return out
+
+
+def corner_programs(seed):
+    """a few fixed small programs that every run contains: value-storing adaptors fed by a leaf whose value type has a
+    throwing move constructor (vf::mval), so that the single-fault enumeration reaches the 'storing the value threw' paths
+    of finally / via / when_all / let_value / stop_when whatever the random programs of this seed look like"""
+    def L(i, vt="val", mv=1):
+        d = {"op": "leaf", "id": i, "vt": vt, "blocking": "maybe", "sd": 1, "aff": 0}
+        if mv and vt == "val":
+            d["mv"] = 1
+        return d
+    progs = [
+        {"op": "via", "kid": L(1), "sched": 100},
+        {"op": "finally", "kid": L(1), "completion": L(2, "void")},
+        {"op": "then", "kid": {"op": "when_all", "kids": [L(1), L(2)]}, "fn": 10, "ret": "val"},
+        {"op": "let_value", "kid": L(1), "fn": 10, "body": L(2, "val", 0)},
+        {"op": "stop_when", "kid": L(1), "trigger": L(2, "void")},
+        {"op": "via", "kid": {"op": "then", "kid": L(1), "fn": 10, "ret": "val"}, "sched": 100},
+    ]
+    tok = seed % 2   # counting / inplace token alternate with the seed
+    return [(901 + i, sp, tok, False) for i, sp in enumerate(progs)]
 
 
 if __name__ == "__main__":
